@@ -8,9 +8,9 @@ def P(quick, thorough, **kw):
     return d
 
 PLANS = {
- "C01": P([("roundtrip", 60), ("boundary_reader", 38), ("boundary", 12), ("sparse_boundary", 3), ("reopen", 10), ("bigline", 2), ("interleave", 20)],
+ "C01": P([("roundtrip", 60), ("boundary_reader", 38), ("boundary", 12), ("sparse_boundary", 3), ("reopen", 10), ("bigline", 2), ("interleave", 20), ("reopen_marker", 20)],
           [("roundtrip", 1500), ("boundary_reader", 380), ("boundary", 190), ("sparse_boundary", 24), ("reopen", 200), ("assets", 2), ("bigline", 10)]),
- "C02": P([("ranges", 70), ("boundary", 2), ("bigsection", 4)], [("ranges", 2500), ("boundary", 40), ("index_states", 200), ("bigsection", 60)]),
+ "C02": P([("ranges", 70), ("boundary", 2), ("bigsection", 4), ("lastmeta", 12)], [("ranges", 2500), ("boundary", 40), ("index_states", 200), ("bigsection", 60)]),
  "C03": P([("refuse", 60), ("torn", 40), ("boundary", 6)], [("refuse", 1500), ("torn", 600), ("boundary", 60)]),
  "C04": P([("reopen", 50), ("reopen_marker", 20), ("roundtrip", 20), ("bigline", 6), ("lastmeta", 6)],
           [("reopen", 1200), ("reopen_marker", 500), ("roundtrip", 400), ("bigline", 20), ("lastmeta", 60)], op_timeout_ms=20000),
@@ -27,7 +27,7 @@ PLANS = {
  "C13": P([("ranges", 70), ("bigsection", 3)], [("ranges", 2500), ("boundary", 30), ("bigsection", 40)]),
  "C14": P([("ranges", 70), ("bigsection", 3)], [("ranges", 2500), ("boundary", 30), ("bigsection", 40)]),
  "C15": P([("roundtrip", 40), ("reopen", 20), ("torn", 30), ("refuse", 10), ("boundary", 12), ("boundary2", 10), ("lastmeta", 8), ("interleave", 20)], [("roundtrip", 1000), ("reopen", 500), ("torn", 1000), ("refuse", 300), ("boundary", 60), ("boundary2", 90), ("lastmeta", 80), ("interleave", 300)]),
- "C16": P([("roundtrip", 30), ("refuse", 20), ("caches", 20), ("ranges", 10), ("reopen", 40), ("interleave", 60)], [("roundtrip", 600), ("refuse", 500), ("caches", 600), ("ranges", 300), ("interleave", 1500)]),
+ "C16": P([("roundtrip", 30), ("refuse", 20), ("caches", 20), ("ranges", 10), ("reopen", 40), ("interleave", 60), ("caches_reopen", 15)], [("roundtrip", 600), ("refuse", 500), ("caches", 600), ("ranges", 300), ("interleave", 1500), ("reopen", 400), ("caches_reopen", 400)]),
  "C17": P([("contract", 60), ("roundtrip", 10)], [("contract", 1500), ("roundtrip", 200)]),
  "C18": P([("corrupt", 80)], [("corrupt", 2500)]),
  "C19": P([("totality", 60), ("bigline", 6), ("cache_sections", 8), ("resample", 30), ("boundary_reader", 9)],
@@ -62,6 +62,8 @@ def context(rec, j):
     return c
 
 def properties_of_failure(rec, jf):
+    if jf.get("props"):
+        return set(jf["props"])          # a literal check (tools/literal.py) names its property itself
     j, op, what = jf["op_index"], jf["op"], jf["what"]
     k = opkind(op)
     c = context(rec, j)
@@ -128,6 +130,8 @@ def properties_of_failure(rec, jf):
             if k in ("push", "pushseq") and c["reopened"]: ps.add("C04" if not c["torn"] else "C05")
         if k in ("push", "pushseq", "read_all", "read_first_n", "read_n", "n_lines", "last_line", "len", "is_empty", "range", "payload_size"):
             ps.add("C16")
+        if k == "open" and not (c["torn"] or c["index_fault"] or c["cache_fault"] or c["corrupt"] or c["format"] or c["asset"]) and not absent:
+            ps.add("C16")     # only the repair of a damaged tail may change a file at open: this series was intact
         if k in ("push", "pushseq") and not is_cache and not is_index:
             ps.add("C03")
     return ps
